@@ -161,6 +161,12 @@ def explore(res, tag, subjects, phases=None, kind_to_key=None, derive_dep=None, 
     return merged
 
 
+def decl_key(s):
+    """identity of a subject's declaration (what two subjects must share for their transcripts to be comparable)"""
+    d = s.decl
+    return (d.repr, d.name, tuple((v.ident, v.lit, v.rename) for v in d.variants), str(s.opts.get("bounds")), str(s.opts.get("args")))
+
+
 def compare_transcripts(res, merged, subjects, group_of, kind_label, items=None):
     """Differential oracle without a hand-written expectation: within one group (same enum
     declaration, or same value set for C18) every item that two subjects both enable must have the
